@@ -141,6 +141,8 @@ GOAL_CFG = {
                "Costs": [1, 2, 3], "InitMaxCost": 4, "MaxCosts": [4], "MaxGets": 4},
     "g_costkey": {"Keys": [1, 2, 3, 4], "Hashes": [1, 2, 3, 4], "Clients": [1], "MaxOps": 14, "Ops": ["set", "get"], "BufCap": 3,
                   "Costs": [1], "KeyCost": "LastKeyCosts2", "InitMaxCost": 3, "MaxCosts": [3], "MaxGets": 4},
+    "g_sweepfill": {"Keys": [1, 2, 3], "Hashes": [1, 2, 3], "Clients": [1], "MaxOps": 7, "Ops": ["set", "wait"], "BufCap": 3,
+                    "Costs": [1], "InitMaxCost": 2, "MaxCosts": [2], "TTLs": [0, 1], "MaxTime": 8, "MaxGets": 0},
     "g_fit": {"Keys": [1, 2, 3], "Hashes": [1, 2, 3], "Clients": [1], "MaxOps": 12, "Ops": ["set", "del", "wait", "get"], "BufCap": 3,
               "Costs": [1, 3], "InitMaxCost": 9, "MaxCosts": [9], "MaxGets": 2},
     "g_zero": {"Keys": [1, 2], "Hashes": [1, 2], "Clients": [1], "MaxOps": 8, "Ops": ["set", "wait", "get"], "BufCap": 3,
@@ -169,7 +171,7 @@ GOAL_CFG = {
                 "Costs": [1], "InitMaxCost": 2, "MaxCosts": [2]},
 }
 GOALS = {
-    "G_FillAfterRejVict": "g_costkey", "G_RejectWithVictims": "g_cost", "G_TwoVictims": "g_cost", "G_DuplicateVictim": "g_cost", "G_RaiseCost": "g_cost",
+    "G_FillAfterRejVict": "g_costkey", "G_RoomAfterSweepSkip": "g_sweepfill", "G_RejectWithVictims": "g_cost", "G_TwoVictims": "g_cost", "G_DuplicateVictim": "g_cost", "G_RaiseCost": "g_cost",
     "G_DroppedUpdate": "g_write", "G_BlockedDel": "g_write", "G_UpdateOfEvicted": "g_upd",
     "G_SweepWithBuffered": "g_ttl", "G_LateApply": "g_ttl", "G_ExpiredUnswept": "g_ttl",
     "G_ClearWithBacklog": "g_clear", "G_ClearWhileBusy": "g_clear", "G_ClearWithPending": "g_clear1",
@@ -182,7 +184,7 @@ GOALS = {
 GOALS_FOR = {
     "C01": ["G_TakeoverExpiredSlot", "G_CollidingDel"],
     "C02": ["G_UpdateOfEvicted", "G_DroppedUpdate", "G_ClearWhileBusy", "G_DelDuringVictims", "G_SetDuringSweepDel", "G_SetDuringClear"],
-    "C03": ["G_FillAfterRejVict", "G_RaiseCost", "G_TwoVictims", "G_DuplicateVictim", "G_UpdateOfEvicted", "G_ExactFitAfterShrink", "G_ReAddAfterZeroSweep", "G_SixVictims", "G_ZeroCostVictim"],
+    "C03": ["G_RoomAfterSweepSkip", "G_FillAfterRejVict", "G_RaiseCost", "G_TwoVictims", "G_DuplicateVictim", "G_UpdateOfEvicted", "G_ExactFitAfterShrink", "G_ReAddAfterZeroSweep", "G_SixVictims", "G_ZeroCostVictim"],
     "C04": ["G_DroppedUpdate", "G_RejectWithVictims", "G_ClearWithBacklog", "G_ExpiredUnswept", "G_ClearWithPending", "G_SetDuringClear", "G_RefusedRewrite"],
     "C05": ["G_BlockedDel", "G_ClearWithBacklog", "G_DelDuringVictims", "G_WaitBlockedInSend"],
     "C06": ["G_LateApply1", "G_ExpiredUnswept1", "G_SameBucketRewrite1", "G_TTLDropped1", "G_ExactFitAfterShrink"],
